@@ -366,6 +366,7 @@ def judge_wrapped(ctx, prefix, engine_word, case, wty, shape, fname, Cls, ty, d,
 
 BIND_OFFSET = 20_000_000
 REACH_OFFSET = 30_000_000
+INHERIT_OFFSET = 40_000_000
 
 
 def run(ctx: C.Ctx):
@@ -377,9 +378,12 @@ def run(ctx: C.Ctx):
     if ctx.only is None or BIND_OFFSET <= ctx.only < REACH_OFFSET:
         # third stream: fields bound through aliases / paths x absent keys (c09_bind.py)
         c09_bind.run(ctx, bind_rng, BIND_OFFSET)
-    if ctx.only is None or ctx.only >= REACH_OFFSET:
+    if ctx.only is None or REACH_OFFSET <= ctx.only < INHERIT_OFFSET:
         # fourth stream: how the nested dataclass is reached (tagged Union, TypedDict value, ...) x absent keys
         run_reach(ctx)
+    if ctx.only is None or ctx.only >= INHERIT_OFFSET:
+        # fifth stream: classes related by inheritance, loaded in one history x absent keys
+        run_inherit(ctx)
 
 
 def run_default(ctx: C.Ctx):
@@ -640,18 +644,24 @@ def run_v1(ctx: C.Ctx):
 
 # --------------------------------------------------------------------------- fourth stream: ways of reaching the nested dataclass
 
-def judge_load(ctx, prefix, word, case, Cls, ty, d, built, src):
-    """one load of document `d` (made by deleting keys) at main class `ty`: the property's clauses; returns the outcome"""
+def judge_load(ctx, prefix, word, case, Cls, ty, d, built, src, loader=None):
+    """one load of document `d` (made by deleting keys) at main class `ty`: the property's clauses; returns the outcome.
+    `loader(Cls, doc)`: the entry point used (default: fromdict)"""
     from dataclass_wizard import fromdict
     from dataclass_wizard.errors import MissingFields
+    loader = loader or fromdict
     before = copy.deepcopy(d)
-    out = load_outcome(lambda: fromdict(Cls, d))
+    out = load_outcome(lambda: loader(Cls, d))
     exp = expect(ty, d)
+    if out[0] == 'ok' and type(out[1]) is not Cls:
+        # load(doc) == D(**present, defaults): an instance of the class asked for
+        ctx.fail(prefix + ':wrong-class', case, f'the {word}load through {Cls.__name__} returned an instance of {type(out[1]).__name__}: {out[1]!r}'[:800], detail=src)
+        return out
     if exp is None:
         if out[0] == 'err':
             ctx.fail(prefix + ':unexpected-error', case, f'no required key deleted, but the {word}load raised {type(out[1]).__name__}: {str(out[1])[:300]}', detail=src)
         else:
-            y2 = fromdict(Cls, copy.deepcopy(before))
+            y2 = loader(Cls, copy.deepcopy(before))
             check_defaults(ctx, case, out[1], y2, ty, d, built, src, deep=True)
         return out
     cname, missing = exp
@@ -737,3 +747,105 @@ def run_reach(ctx: C.Ctx):
         outs = ctx.driver.run(reqs)
         for (case, out, built), o_ in zip(pend, outs):
             compare_load(ctx, 'absent:reach', case, out, o_, built)
+
+
+# --------------------------------------------------------------------------- fifth stream: classes related by inheritance, histories
+
+INH_APIS = ['fromdict', 'fromdict', 'from_dict', 'from_list']
+
+
+def _loader(api):
+    from dataclass_wizard import fromdict
+    if api == 'from_dict':
+        return lambda Cls, d: Cls.from_dict(d)
+    if api == 'from_list':
+        return lambda Cls, d: Cls.from_list([d])[0]
+    return fromdict
+
+
+def run_inherit(ctx: C.Ctx):
+    from harness import inherit
+    rng = v1streams.sub_rng(ctx, 'inherit')
+    gen.SUBS = False
+    ctx.rule += (' || INHERITANCE STREAM (both engines): a base dataclass of the first stream\'s grammar and 1-3 dataclasses derived from it '
+                 '(siblings / chains; JSONWizard hierarchy taking the inner Meta of the immediate base, or plain dataclasses each bound with '
+                 'LoadMeta / a hand-made Meta), every derived class adding required / default / default_factory / init=False fields and nested '
+                 'dataclasses of its own; one *history* per family: the classes are loaded in a random order with repeats (a base class before '
+                 'the first load of a class derived from it, and the other way round) through fromdict / from_dict / from_list, each time a '
+                 'complete document of that class minus a subset of its key positions (inherited and own, any depth): an instance of exactly '
+                 'that class with defaults for the omitted fields, else MissingFields naming that class (or the nested one) and exactly the '
+                 'omitted required fields — inherited and own —, and vs the Lean model of the flattened class.')
+    nfam = ctx.quick(160, 1500)
+    reqs, pend = [], []
+    for ci in range(nfam):
+        i = INHERIT_OFFSET + ci
+        if ctx.done(i):
+            break
+        base = v1streams.Namer(ci)
+
+        def nm(prefix='K', base=base):
+            return base('I' + prefix)
+        engine = rng.choice(['default', 'v1', 'v1'])
+
+        def mk():
+            c = gen_c09_cls(rng, rng.choice([0, 0, 1, 1]), fresh=nm, p_noinit=0.4)
+            if engine == 'v1':
+                soften_kw_only(rng, c, keep=0.0)         # recorded finding v1-kw-only-required: kept out of this stream
+            return c
+        meta = None
+        if engine == 'v1':
+            meta = {'v1': True}
+            if rng.random() < 0.4:
+                meta['v1_key_case'] = 'AUTO'
+        chain, style = inherit.family(rng, mk, meta, fresh=nm)
+        steps = inherit.history(rng, chain)
+        try:
+            built = model.Built(inherit.holder(chain, fresh=nm))
+        except Exception as e:
+            ctx.count('build_error')
+            ctx.notes.setdefault('build_errors', []).append(repr(e)[:300])
+            continue
+        try:
+            plan = []
+            for k in steps:
+                ty = chain[k]
+                x = gen.gen_instance(rng, ty, built, use_defaults_prob=0.0)
+                doc = json.loads(json.dumps(plain_doc(x, ty, built)))
+                pos = key_positions(ty, doc)
+                r = rng.random()
+                if r < 0.15 or not pos:
+                    S = ()
+                elif r < 0.5:
+                    S = (rng.choice(pos),)
+                else:
+                    pr = rng.choice([0.15, 0.4])
+                    S = tuple(p for p in pos if rng.random() < pr)
+                plan.append((k, doc, S, rng.choice(INH_APIS)))
+            if not ctx.begin_case(i):
+                continue
+            fam, order = inherit.describe(chain, steps)
+            fam = dict(fam, engine=engine, style=style)
+            ctx.count('inherit:' + order)
+            ctx.count('inherit:' + engine + ':' + style)
+            src = dict(src=built.source)
+            word = 'v1 ' if engine == 'v1' else ''
+            for step, (k, doc, S, api) in enumerate(plan):
+                ty = chain[k]
+                Cls = built.get(ty['info']['name'])
+                if api != 'fromdict' and not hasattr(Cls, api):
+                    api = 'fromdict'
+                d = delete_paths(doc, S)
+                case = dict(fam, step=step, cls=ty['info']['name'], api=api, ty=ty, doc=repr(d)[:500], deleted=repr(S))
+                ctx.seen('absent:inherit', [fam['steps'], step, case['cls'], api, ty, case['doc']], nontrivial=bool(S))
+                out = judge_load(ctx, 'absent:inherit', f'(step {step} of {fam["steps"]}, derives_from {fam["derives_from"]}) {word}{api} ',
+                                 case, Cls, ty, d, built, src, loader=_loader(api))
+                st = model.StdTables()
+                st.add_json(d)
+                reqs.append({'op': 'loadv1' if engine == 'v1' else 'load', 'ty': model.enc_ty(ty), 'doc': model.enc_j(d), 'std': st.build()})
+                pend.append((case, out, built))
+        finally:
+            built.close()
+    if ctx.model_available:
+        outs = ctx.driver.run(reqs)
+        for (case, out, built), o_ in zip(pend, outs):
+            compare_load(ctx, 'absent:inherit', case, out, o_, built)
